@@ -90,6 +90,24 @@ CHECKS={
    ref="DESIGN.md §4 E-SCHED, §5 C16", note="Bounds: <=3 threads, one operation per thread in H1, preemption bound 2 (3). Weak-memory effects are not modelled (the race monitor reports the enabling race). The dependency's internal synchronisation is only seen by the free-running race-detector pass, which is a sample, reported separately in the evidence.",
    technique=T_MC+"stateless exploration of thread interleavings under a controlled scheduler with iterative preemption bounding (CHESS style), happens-before race monitor, linearizability oracle"),
 }
+
+# session-3 extensions, appended to the level text of the affected checks
+EXT={
+ "C14":" A prefix that is rejected only at its end (open block comment, open regex, body still pending) is a state and is expanded like any other; the regex oracle's memory (escape pending) is part of the key.",
+ "C05":" The same rewrites, plus quoting of every bare parameter and parenthesising of every implicitly nesting directive, are applied to every fixture of the repository's corpus whose structure can be recovered from the real lexeme stream and scan-phase forest (683 of 886).",
+ "C12":" Hosts: request / response body and headers, query, path, JSON-RPC params and result, nested object of a type, each as 1st / 2nd / 3rd response and 1st / 2nd / 3rd interaction among fillers that lack or have the same feature; a fourth own-property pattern with a key-shortcut property.",
+ "C13":" A referenced Path body is followed through alias chains of 1..3 references with the types declared before or after the use.",
+ "C15":" For texts of at most two lines every kind of line that may follow the description in its host (sibling, directive of an enclosing block, bare keywords of every length, end of input).",
+ "C19":" Tags lists are all sequences of length <= 3 over two declared names (repetitions included), with an undeclared name at the front, in the middle or at the end.",
+ "C04":" Tags dimension: the focus method with its own Tags, under URL-level Tags, or both (own Tags win).",
+ "C08":" A JSIGHT line at every position of an included file made of <= 3 declarations / nested INCLUDEs, and in the nested file.",
+ "C02":" Faults found only when a schema is loaded (incompatible rule, unknown rule, duplicate key) injected into every schema-bearing directive of the pool documents in both declaration orders, delivered directly, through PASTE and through INCLUDE: the diagnostic must lie inside that directive, in the file that holds it.",
+ "C03":" The order exploration also runs over every single-file case of the shared streams (pool documents in several orders, all sequences of <= 2 directive variants, paste graphs, and documents with 2-3 simultaneous instances of every fault kind about named things).",
+ "C09":" Pool documents also in reversed and rotated declaration order.",
+ "C16":" Every write to a struct field reached through a pointer and every read of a field some statement writes is reported to the happens-before monitor (monitor-only hooks), so a read-only method that caches into its receiver is found in the first schedule; H4 meets the catalog's first serialisation under concurrency.",
+}
+for k,v in EXT.items():
+    CHECKS[k]["text"]+=v
 ENGINES=[
  {"name":"E-SCAN","path":"internal/escan","serves_properties":["C14"],"kind_free_text":"explicit-state BFS over the real scanner.Next with a per-byte hook; abstract key cross-checked by second representatives"},
  {"name":"E-STREAMS","path":"internal/checks/streams.go","serves_properties":[],"kind_free_text":"deterministic enumerations of projects shared (as code) by the aggregating checks: scanner-state and context-state representatives (prepared once by the parent), directive-variant sequences, paste graphs, include graphs and file-system states, corpus one-line-edit neighbourhood, option sets, stress names"},
